@@ -148,7 +148,7 @@ def write_evidence(a, seed, units, mine, results, violations, undecided, known_h
         u = units[n]
         fuc.append({'unit': n, 'kind': u.get('kind', 'function'), 'source': u.get('tu'), 'decl': u.get('decl'), 'clang_signature': u.get('sig'),
                     'source_line': r.get('src_line'), 'status': r['status'], 'backend': r.get('backend'),
-                    'mode': ('bounded(unwind=%s)' % u.get('unwind')) if r.get('bounded') else 'unbounded (loop contracts / loop-free)',
+                    'mode': (('bounded(capacity=%s, unwind=%s)' % (u.get('cap', 5), u.get('unwind'))) if u.get('unwind') else ('bounded(capacity=%s; loop contracts, no unwinding)' % u.get('cap'))) if r.get('bounded') else 'unbounded (capacity 65536; loop contracts / loop-free)',
                     'obligations': r.get('obligations', 0), 'discharged': r.get('discharged', 0), 'solver_s': round(r.get('solver_s', 0.0), 1),
                     'callees_replaced_by_contract': r.get('replaced', []), 'obligation_classes': r.get('obligation_classes', {})})
         for s in r.get('samples', [])[:2]:
@@ -180,7 +180,7 @@ def write_evidence(a, seed, units, mine, results, violations, undecided, known_h
                 'shim/nvec.h states the behaviour of the std::vector members used; capacity <= 65536 elements, no aliasing between distinct containers'],
             'functions_under_contract': fuc,
             'units_proved_unbounded': proved,
-            'units_bounded_standin': [{'unit': n, 'unwind': units[n].get('unwind'), 'obligations': results[n].get('obligations', 0)} for n in bounded],
+            'units_bounded_standin': [{'unit': n, 'capacity': units[n].get('cap', 5), 'unwind': units[n].get('unwind'), 'obligations': results[n].get('obligations', 0)} for n in bounded],
             'not_covered': meta.get('not_covered', []),
             'rule_firings': firings,
             'samples': samples[:12],
